@@ -11,7 +11,7 @@ from .storeimpl import Impl, canon_ids, UUID_RE
 
 LIT_UUID = "00000000-0000-0000-0000-00000000000a"
 NAMES_PLAIN = ["a", "b", "z1", "A", "m", "zz", "data", "name with space", "é", "名前", "ß-ü", "..", "a.b",
-               "x" * 300]
+               "x" * 300, " a", "a ", " b ", "b\t"]      # (surrounding whitespace is part of a name)
 NAMES_UUIDISH = ["0f" * 16, LIT_UUID, "{00000000-0000-0000-0000-00000000000b}",
                  "urn:uuid:00000000-0000-0000-0000-00000000000c", "ABCDEFabcdef00112233445566778899"]
 NAMES_BAD = ["", "a/b", "/"]
@@ -408,11 +408,46 @@ def run_history(ctx, rng, steps, profile, tag, reopen_prob=0.0):
     return gen.ops, gen.outs
 
 
+def canon_dump(nodes):
+    """HDF5-level dump with the order of an ENTITY's own child links (and the root's) normalised:
+    which of an entity's container groups was created first is not observable through the API
+    (a refused call may leave an empty container behind, which fixes that order). Entries inside
+    container groups keep their (creation) order. Nodes are renumbered by DFS."""
+    by_n = {nd["n"]: nd for nd in nodes}
+    order = []
+    seen = set()
+
+    def visit(n):
+        if n in seen or n not in by_n:
+            return
+        seen.add(n)
+        order.append(n)
+        nd = by_n[n]
+        links = nd["links"]
+        if n == 0 or "entity_id" in nd["attrs"]:
+            links = sorted(links, key=lambda l: str(l[0]))
+        nd["_links"] = links
+        for _, t in links:
+            visit(t)
+
+    visit(0)
+    num = {n: i for i, n in enumerate(order)}
+    out = []
+    for n in order:
+        nd = by_n[n]
+        out.append({"n": num[n], "kind": nd["kind"], "attrs": nd["attrs"],
+                    "links": [[nm, num.get(t, -1)] for nm, t in nd["_links"]]})
+    return out
+
+
 def compare(ops, impl_outs, model_outs):
     """canonicalise both streams identically; returns list of (index, op, model, impl)"""
     mi, ii = {}, {}
     diffs = []
     for k, (op, m, i) in enumerate(zip(ops, model_outs, impl_outs)):
+        if op[0] == "dump" and isinstance(m.get("ok"), list) and isinstance(i.get("ok"), list):
+            m = {"ok": canon_dump(m["ok"])}
+            i = {"ok": canon_dump(i["ok"])}
         cm = canon_ids(m, mi, (LIT_UUID,))
         ci = canon_ids(i, ii, (LIT_UUID,))
         if cm != ci:
